@@ -1782,6 +1782,52 @@ impl Db {
 	}
 }
 
+/// Verification hooks (cargo feature `verif`): let an external harness run the real worker
+/// loops on threads it owns and observe the pipeline counters. Adds code only.
+#[cfg(feature = "verif")]
+impl Db {
+	/// Runs the body of one background worker on the calling thread, exactly as the thread
+	/// spawned by `open_inner` would (including `store_err`). 0 = commit worker, 1 = flush
+	/// worker, 2 = log worker, 3 = cleanup worker.
+	pub fn verif_run_worker(&self, which: u8) {
+		let db = self.inner.clone();
+		match which {
+			0 => db.store_err(Self::commit_worker(db.clone())),
+			1 => {
+				let min_log_size =
+					if self.inner.options.always_flush { 0 } else { MIN_LOG_SIZE_BYTES };
+				db.store_err(Self::flush_worker(db.clone(), min_log_size))
+			},
+			2 => db.store_err(Self::log_worker(db.clone())),
+			_ => db.store_err(Self::cleanup_worker(db.clone())),
+		}
+	}
+
+	/// Requests worker shutdown, as the first step of dropping the handle does.
+	pub fn verif_shutdown(&self) {
+		self.inner.shutdown()
+	}
+
+	/// Records a background error the way a failing worker does.
+	pub fn verif_store_err(&self, message: &str) {
+		self.inner.store_err(Err(Error::Corruption(message.to_string())))
+	}
+
+	/// (queued commits, queued bytes, logged-but-unapplied bytes, log files awaiting cleanup,
+	/// log files awaiting enactment, background error set).
+	pub fn verif_pipeline_state(&self) -> (usize, usize, i64, usize, bool, bool) {
+		let (commits, bytes) = {
+			let queue = self.inner.commit_queue.lock();
+			(queue.commits.len(), queue.bytes)
+		};
+		let logged = *self.inner.log_queue_wait.work.lock();
+		let dirty = self.inner.log.num_dirty_logs();
+		let to_read = self.inner.log.has_log_files_to_read();
+		let bg_err = self.inner.bg_err.lock().is_some();
+		(commits, bytes, logged, dirty, to_read, bg_err)
+	}
+}
+
 impl Drop for Db {
 	fn drop(&mut self) {
 		self.drop_inner()
